@@ -333,3 +333,26 @@ case('benign-so2-distance-rem', ['C09'], [],
      (SO2, "        let mut diff = state1.value - state2.value;\n        diff = (diff + PI).rem_euclid(2.0 * PI) - PI;\n        diff.abs()", "        let diff = state1.value - state2.value;\n        PI - ((diff.abs() % (2.0 * PI)) - PI).abs()"))
 case('benign-compound-zip', ['C13', 'C08', 'C06'], [],
      (CSS, "        for i in 0..self.subspaces.len() {\n            self.subspaces[i].enforce_bounds_dyn(&mut *state.components[i]);\n        }", "        for (subspace, component) in self.subspaces.iter().zip(state.components.iter_mut()) {\n            subspace.enforce_bounds_dyn(&mut **component);\n        }"))
+
+
+# ---------------------------------------------------------------- seeded changes written by independent sub-agents
+# (patch files under /verif/seeded/<id>/patch.diff; see meta.json there)
+def seeded(name, props, expect):
+    CASES.append({'name': name, 'props': props, 'expect': expect, 'edits': [], 'patch': '/verif/seeded/%s/patch.diff' % name.split('-')[1]})
+
+
+seeded('seeded-C01-prm-keeps-roadmap', ['C01', 'C02'], ['C01.recheck', 'C02.reroot'])
+seeded('seeded-C02-goal-cache', ['C02'], ['C02.goal'])
+seeded('seeded-C03-step-cap', ['C03'], ['C03.res'])
+seeded('seeded-C06-build-ignores-deadline', ['C06'], ['C06.loops'])
+seeded('seeded-C07-take-before-gates', ['C07'], ['C07.restore'])
+seeded('seeded-C08-goal-cache', ['C08', 'C02'], ['C08.init', 'C02.goal'])
+seeded('seeded-C11-half-bounded-skip', ['C11', 'C08'], ['C11.same'])
+seeded('seeded-C12-pi-boundary', ['C12'], ['C12.stored'])
+seeded('seeded-C13-lazy-enforce', ['C13'], ['C13.match'])
+seeded('seeded-C15-tie-rewire', ['C15'], ['C15.acyclic'])
+seeded('seeded-C16-bias-start-tree-only', ['C16'], ['C16.bias'])
+seeded('seeded-C17-lazy-choose-parent', ['C17', 'C05', 'C15'], ['C17.choose'])
+seeded('seeded-C18-goal-at-generation', ['C18', 'C02'], ['C18.bfs', 'C02.goal'])
+seeded('seeded-C19-normalise-on-entry', ['C19'], ['C19.lossless'])
+seeded('seeded-C20-dunder-bool', ['C20'], ['C20.validity'])
